@@ -1358,3 +1358,25 @@ def verify_function(ex: Exec, qual: str, setup: Callable, post: Callable, *, clo
             ex.oblige(f"{ex.unit}/{qual}/{clause}/path{i}", c, goal)
     ex.default_concretize = None
     return len(outs)
+
+
+def accumulators(fnode, ordinal: int):
+    """Names of a loop's accumulators by ROLE, so that sidecar invariants survive a renaming of locals:
+    `carried`  : names assigned inside the loop body that were already assigned before the loop (in order of first assignment
+                 before the loop) -- the loop-carried state;
+    `appended` : names X with `X.append(..)` in the body, in order of their first assignment before the loop."""
+    loops = sorted([n for n in ast.walk(fnode) if isinstance(n, ast.For)], key=lambda n: (n.lineno, n.col_offset))
+    loop = loops[ordinal]
+    pre = []
+    for n in ast.walk(fnode):
+        if isinstance(n, ast.Name) and isinstance(n.ctx, ast.Store) and (n.lineno, n.col_offset) < (loop.lineno, loop.col_offset) and n.id not in pre:
+            pre.append((n.lineno, n.col_offset, n.id))
+    pre_names = []
+    for _, _, nm in sorted(pre):
+        if nm not in pre_names:
+            pre_names.append(nm)
+    body = ast.Module(body=list(loop.body), type_ignores=[])
+    assigned = {n.id for n in ast.walk(body) if isinstance(n, ast.Name) and isinstance(n.ctx, ast.Store)}
+    appended = {n.func.value.id for n in ast.walk(body) if isinstance(n, ast.Call) and isinstance(n.func, ast.Attribute)
+                and n.func.attr == "append" and isinstance(n.func.value, ast.Name)}
+    return {"carried": [n for n in pre_names if n in assigned], "appended": [n for n in pre_names if n in appended]}
